@@ -68,8 +68,9 @@ AddCfg(ms, name, ndev) ==
   ELSE LET id == Len(ms.cname) + 1
        IN MOk([ms EXCEPT !.cname = Append(@, name), !.cndev = Append(@, ndev), !.cfgs = Append(@, id)])
 
-\* nodes the model reaches: graph 1 (no functions / nesting in this model)
-ModelNodes(ms) == RangeS(ms.s.gNodes[1])
+\* nodes the model reaches: graph 1 and, in the nested configuration, graph 2 - the body of a node of graph 1,
+\* whose nodes may use (capture) values of graph 1
+ModelNodes(ms) == UNION {RangeS(ms.s.gNodes[g]) : g \in DOMAIN ms.s.gNodes}
 
 Cascade(ms, target, byName) ==
   [ms EXCEPT !.ann = [n \in DOMAIN @ |->
@@ -132,12 +133,13 @@ Canonical(ms) ==
      /\ \A x \in DOMAIN ms.ann[n] : \A a, b \in DOMAIN ms.ann[n][x].specs : a # b => ms.ann[n][x].specs[a].val # ms.ann[n][x].specs[b].val
 
 \* what serialization must write: references by CURRENT names, in node order of the model graph
-SerAnn(ms) ==
-  [p \in DOMAIN ms.s.gNodes[1] |->
-     LET n == ms.s.gNodes[1][p] IN
+SerAnnG(ms, g) ==
+  [p \in DOMAIN ms.s.gNodes[g] |->
+     LET n == ms.s.gNodes[g][p] IN
      [x \in DOMAIN ms.ann[n] |->
         [cfg |-> ms.cname[ms.ann[n][x].cfg], stage |-> ms.ann[n][x].stage,
          specs |-> [y \in DOMAIN ms.ann[n][x].specs |->
                       [name |-> ms.s.vName[ms.ann[n][x].specs[y].val],
                        axes |-> ms.ann[n][x].specs[y].axes, devs |-> ms.ann[n][x].specs[y].devs]]]]]
+SerAnn(ms) == SerAnnG(ms, 1)
 =============================================================================
